@@ -158,6 +158,7 @@ CATALOGUE: list[tuple[str, list[str], list[Edit], str]] = [
     # ---- C07
     ("c07-raw-keyword-comparison", ["C07"], [E("core/parser/sqlfluff/extractors/merge.py", ("MergeExtractor", "extract"), lambda n, s: isinstance(n, ast.Compare) and s == 'segment.raw_upper == "USING"', lambda s: 'segment.raw == "USING"')], "mutant"),
     ("c07-lowercase-literal-vs-upper", ["C07"], [E("core/parser/sqlfluff/extractors/update.py", ("UpdateExtractor", "extract"), lambda n, s: isinstance(n, ast.Constant) and n.value == "UPDATE", lambda s: '"update"')], "mutant"),
+    ("c07-dedupe-by-position", ["C07"], [E("core/parser/sqlfluff/utils.py", ("list_remaining_subqueries",), lambda n, s: isinstance(n, ast.Attribute) and s == "innermost.raw", lambda s: "innermost.pos_marker.line_pos")], "mutant"),
     ("c07-flag-loop-on-raw-segments", ["C07"], [E("core/parser/sqlfluff/extractors/drop.py", ("DropExtractor", "extract"), lambda n, s: is_call(n, "list_child_segments"), lambda s: "statement.segments")], "mutant"),
     ("c07-twin-raw-upper-method", [], [E("core/parser/sqlfluff/extractors/copy.py", ("CopyExtractor", "extract"), lambda n, s: isinstance(n, ast.Attribute) and s == "segment.raw_upper", lambda s: "segment.raw.upper()")], "twin"),
     # ---- C08
@@ -220,15 +221,20 @@ CATALOGUE: list[tuple[str, list[str], list[Edit], str]] = [
 
 def failing_keys(pid: str, root: str) -> tuple[set, Optional[str]]:
     mod = importlib.import_module(f"sa.rules.{pid.lower()}")
+    ctx = None
+    err = None
     try:
         prog = Prog(root)
         ctx = Ctx(pid, "quick", prog, root)
         mod.rules(ctx)
-        return {(o.rule, o.key) for o in ctx.obligations if not o.ok}, None
+        if getattr(ctx, "deferred_errors", None):
+            err = "ANALYSIS-ERROR " + "; ".join(ctx.deferred_errors)
     except AnalysisError as e:
-        return set(), f"ANALYSIS-ERROR {e}"
+        err = f"ANALYSIS-ERROR {e}"
     except Exception as e:  # noqa
         return set(), f"CRASH {type(e).__name__}: {e}"
+    # as in run_check: what was established before an anchor was lost stays established
+    return ({(o.rule, o.key) for o in ctx.obligations if not o.ok} if ctx is not None else set()), err
 
 
 def _scratch(repo: str) -> str:
@@ -257,10 +263,10 @@ def _run_variant(args) -> dict:
         for pid in pids:
             keys, err = failing_keys(pid, d)
             new = sorted(k for k in keys if k not in baseline.get(pid, set()))
-            if err:
-                fired[pid] = [err]
-            elif new:
+            if new:
                 fired[pid] = [f"{r}[{k}]" for r, k in new[:3]]
+            elif err:
+                fired[pid] = [err]
         return {"name": name, "kind": kind, "status": "done", "fired": fired, "expected": pids}
     finally:
         shutil.rmtree(d, ignore_errors=True)
